@@ -87,9 +87,17 @@ def valid_payload(rng, kind, total_len=None):
         n = rng.choice([0, 1, 8, 12, 64, rng.randrange(0, 65)]) if total_len is None else max(0, min(255, total_len - 16))
         extra = 0 if total_len is None else max(0, total_len - 16 - n)
         fd = kind == "canfd"
+        r = rng.random() if total_len is None else 1.0
+        if r < 0.08:
+            # a remote frame: no data, data length 0, the DLC of the frame that is requested (a data length "derived from the DLC" is wrong here)
+            p = can_payload(b"", ident=rng.getrandbits(29), ide=rng.getrandbits(1), rtr=1, crc=rng.getrandbits(15), flags=rng.getrandbits(16) & 0x3C00, fd=fd,
+                            dlc=rng.randrange(1, 16))
+            return TY[kind], p
         p = can_payload(rand_bytes(rng, n), ident=rng.getrandbits(29), ide=rng.getrandbits(1), rtr=rng.getrandbits(1),
                         crc=rng.getrandbits(21 if fd else 15), crc_support=rng.getrandbits(1), flags=rng.getrandbits(16) & 0x3C00, fd=fd,
                         sbc=rng.getrandbits(3), sbc_parity=rng.getrandbits(1), sbc_support=rng.getrandbits(1))
+        if r < 0.2:
+            extra = rng.choice([1, 2, 3, 8])       # pad bytes behind the data (the message is longer than header + data length)
         return TY[kind], p + rand_bytes(rng, extra)
     if kind == "lin":
         n = rng.randrange(0, 9) if total_len is None else max(0, min(255, total_len - 8))
